@@ -124,7 +124,7 @@ def rescale(rng, case, idx):
             # documented contract: value is given in `unit`'s base dimension; the helper drops the prefix of the
             # unit argument (callers pass base units) - judge with base-unit inputs only
             if p == '':
-                ok = b2 == b and abs(v * R.PREFIX[p2] - abs(x)) <= 1e-9 * abs(x)
+                ok = b2 == b and abs(v * R.PREFIX[p2] - x) <= 1e-9 * abs(x)      # (the sign is part of the amount)
                 if not ok:
                     M.violate(['C19'], 'INSTR', 'C19:get_human_readable_unit_changes_amount',
                               {'input': [x, unit], 'output': [v, u]})
@@ -162,3 +162,27 @@ def rescale(rng, case, idx):
 def recipe(rng, case, idx):
     from pv.recipes import run_recipe_case
     run_recipe_case(rng, case, idx, focus='instructions')
+
+
+# --------------------------------------------------------------------------------------------------
+# directed edge workloads shared between several checks (pv/edges.py)
+
+_plan_without_edges, _run_job_without_edges = plan, run_job
+_required_without_edges = globals().get('required_buckets')
+
+
+def required_buckets(tier):
+    return (list(_required_without_edges(tier)) if _required_without_edges else []) + [ID + '/edge/']
+
+
+def plan(tier, seed):
+    from .common import edges_jobs
+    return _plan_without_edges(tier, seed) + edges_jobs(tier)
+
+
+def run_job(job):
+    if job['kind'] == 'edges':
+        from pv.edges import edges
+        from .common import run_cases
+        return run_cases(job, edges)
+    return _run_job_without_edges(job)
